@@ -221,6 +221,9 @@ func (p *Path) makeSlice(t types.Type, lenv, capv value) value {
 	if !ok {
 		// symbolic capacity: concretise (rare); symbolic len with concrete cap is kept
 		cc = int64(p.concretize(c, "make cap"))
+		if n == c {
+			n = p.i64(cc)
+		}
 		c = p.i64(cc)
 	}
 	if cc < 0 {
